@@ -19,34 +19,41 @@ StartNode == IF RootCfg = "R1" THEN 0 ELSE 1
 
 Init == TreeInit /\ cur = {StartNode}
 
+(* The constructs as operators on a node set S (shared with spec/TracePaths.tla) *)
+OpStep(S, ax, t)          == UNION {StepSet(ax, t, x) : x \in S}
+OpStepPred(S, ax, t, pr)  == UNION {FilterSeq(StepSeq(ax, t, x), pr) : x \in S}
+DescOrSelfOf(S)           == UNION {Desc(x) \cup {x} : x \in S}
+OpDSlash(S, ax, t)        == OpStep(DescOrSelfOf(S), ax, t)
+OpDSlashPred(S, ax, t, pr) == OpStepPred(DescOrSelfOf(S), ax, t, pr)
+OpParen(S, pr)            == FilterSeq(AscSeq(S), pr)
+
 (* axis::test *)
-Step(ax, t) == /\ cur' = UNION {StepSet(ax, t, x) : x \in cur}
+Step(ax, t) == /\ cur' = OpStep(cur, ax, t)
                /\ UNCHANGED <<parent, kind>>
 
 (* axis::test[pred] -- the predicate is numbered in AXIS order per context node *)
 StepPred(ax, t, pr) ==
-   /\ cur' = UNION {FilterSeq(StepSeq(ax, t, x), pr) : x \in cur}
+   /\ cur' = OpStepPred(cur, ax, t, pr)
    /\ UNCHANGED <<parent, kind>>
 
 (* E//axis::test  ==  E/descendant-or-self::node()/axis::test *)
 DSlash(ax, t) ==
-   /\ cur' = UNION {StepSet(ax, t, y) : y \in UNION {Desc(x) \cup {x} : x \in cur}}
+   /\ cur' = OpDSlash(cur, ax, t)
    /\ UNCHANGED <<parent, kind>>
 
 (* E//axis::test[pred] *)
 DSlashPred(ax, t, pr) ==
-   /\ cur' = UNION {FilterSeq(StepSeq(ax, t, y), pr) : y \in UNION {Desc(x) \cup {x} : x \in cur}}
+   /\ cur' = OpDSlashPred(cur, ax, t, pr)
    /\ UNCHANGED <<parent, kind>>
 
-(* a leading "/" : only meaningful as the first construct of a path, so it *)
-(* is enabled in the initial context only (the harness renders it only     *)
-(* with an empty prefix)                                                   *)
+(* a leading "/" : only meaningful as the first construct of a path, so it is enabled in the    *)
+(* initial context only (the harness renders it only with an empty prefix)                      *)
 Root == /\ cur = {StartNode}
         /\ cur' = {IF RootCfg = "R3" THEN 1 ELSE 0}
         /\ UNCHANGED <<parent, kind>>
 
 (* (E)[pred] -- numbered in DOCUMENT order over the whole result *)
-Paren(pr) == /\ cur' = FilterSeq(AscSeq(cur), pr)
+Paren(pr) == /\ cur' = OpParen(cur, pr)
              /\ UNCHANGED <<parent, kind>>
 
 Next == \/ \E ax \in Axes, t \in Tests : Step(ax, t)
